@@ -7,7 +7,7 @@ CONSTANTS
   PMax = 1
   RichLeaves = FALSE
   Getters = {"has"}
-INVARIANTS TypeOK Isolation Disjoint NoGarbage MergeLaws
+INVARIANTS TypeOK Isolation Disjoint NoGarbage
 PROPERTIES ReadOnly OneHandle
 VIEW View
 CHECK_DEADLOCK FALSE
